@@ -50,8 +50,8 @@ var faults = []string{"", "", "", "input-flip", "input-trunc", "input-swap", "pu
 func gen(r *core.PRNG, tier string) any {
 	p := &Plan{Seed: r.Uint64()}
 	p.Shares = []int{2, 2, 3, 4, 5, 8, 9, 16}[r.Intn(8)]
-	if tier == "thorough" && r.Chance(1, 40) {
-		p.Shares = []int{33, 100, 255}[r.Intn(3)]
+	if r.Chance(1, 40) {
+		p.Shares = []int{33, 100, 127, 128, 200, 255}[r.Intn(6)]
 	}
 	switch r.Pick(14, 20, 20, 20, 20, 6) {
 	case 0:
@@ -120,6 +120,17 @@ func directed(tier string) []any {
 				pp := p
 				out = append(out, &pp)
 			}
+		}
+	}
+	// many aggregators: every count around the places where 8-bit arithmetic on the number of
+	// shares (seeds, blinds, two per aggregator) would wrap
+	for _, t := range types {
+		for _, sh := range []int{63, 64, 85, 86, 127, 128, 129, 200, 254, 255} {
+			p := t
+			p.Shares, p.Seed = sh, 13
+			p.Reports = []Report{{Meas: 1, Edge: "max"}, {Meas: 2}}
+			pp := p
+			out = append(out, &pp)
 		}
 	}
 	// circuits at the boundary where proof polynomials switch from schoolbook to NTT multiplication
